@@ -90,9 +90,10 @@ def run(chk):
                     isinstance(inner[0].orelse[0], ast.Return):
                 tt_, E = truth_table(inner[0].test, env)
                 sel[lit] = (tt_, E, stride_of(inner[0].body[0]), stride_of(inner[0].orelse[0]), inner[0])
+    partition_scenarios(chk, fi, c)
     if set(sel) != {"min", "max"} or any(v[0] is None or v[2] is None or v[3] is None for v in sel.values()):
-        chk.ob("R-PARTITION", c, "ptype 'min' and 'max' each select by one direction test between two strides", False,
-               derived="recognised: %s" % sorted(sel), inconclusive=True, loc=fi.loc())
+        chk.note("get_peak_array_indices: the min/max selection is not written as two nested direction tests; decided by scenario "
+                 "interpretation only (R-PARTITION{scenario ...})")
     else:
         (tmin, Emin, amin, bmin, nmin), (tmax, Emax, amax, bmax, nmax) = sel["min"], sel["max"]
         chk.ob("R-PARTITION", c + "{direction}", "both selections test the same direction expression", Emin == Emax,
@@ -166,12 +167,12 @@ def run(chk):
     # detector: inserts 0 and len-1
     q = PK + "determine_indices_of_peaks_for_cleaned_array"
     r = analyse(chk, q, lambda I, st, fi: dict(values=rec_array("values")))
-    ins = [e for e in r.events("lib-call", q) if e.name == "numpy.insert"]
     cd = "eqsig/fns/peaks_and_crossings.py:determine_indices_of_peaks_for_cleaned_array"
-    first = [e for e in ins if e.args[1].has_const() and e.args[1].const == 0 and e.args[2].has_const() and e.args[2].const == 0]
-    last = [e for e in ins if e.args[2].sym is not None and e.args[2].sym == LinExpr("n") - 1]
-    chk.ob("R-IDX", cd + "{ends}", "index 0 is inserted at the front and len(values)-1 at the end", len(first) == 1 and len(last) == 1 and len(ins) == 2,
-           derived="%d insert(s): front-0 %d, len-1 %d" % (len(ins), len(first), len(last)), loc=r.fi.loc())
+    pr = r.ret.parts
+    okp = pr is not None and len(pr) == 3 and pr[0] == ("const", 0) and pr[1][0] == "arr" and "where-index" in pr[1][1] and \
+        pr[2] == ("sym", repr(LinExpr("n") - 1))
+    chk.ob("R-IDX", cd + "{ends}", "the result is index 0, the turning points, index len(values)-1, in that order (np.insert or np.concatenate)", okp,
+           derived="pieces %s" % ([(x[0], x[1] if x[0] != "arr" else "...") for x in pr] if pr else None), loc=r.fi.loc())
     cm = [e for e in r.events("compare", q)]
     chk.ob("R-IDX", cd + "{turning test}", "a turning point is a strictly negative product of successive differences",
            len(cm) == 1 and cm[0].op == "Lt" and cm[0].right.has_const() and cm[0].right.const == 0 and alg_degree(cm[0].left.a(R)) == Exp(2) and
@@ -186,6 +187,92 @@ def run(chk):
     chk.floor("R-CLEANED", 1)
     chk.floor("R-IDX", 8)
     chk.floor("R-NCYC", 8)
+
+
+def partition_scenarios(chk, fi, c):
+    """The max / min selections, decided on the interpretation whatever their control flow looks like: the direction value (a
+    difference of two samples of the series) is given each sign in turn; under every sign the two selections must be the two
+    complementary strides [0::2] / [1::2] of the index array, and when the later sample is the larger the maxima are the odd entries."""
+    hits = {}
+
+    def run_(ptype, sgn):
+        seen = []
+
+        def setup(I):
+            _tag(I)
+
+            vals_ = {}
+
+            def hook(fr, e, v):
+                if fr.fi is fi and isinstance(e, ast.Subscript):
+                    vals_[id(e)] = v
+                if fr.fi is fi and isinstance(e, ast.Compare) and len(e.ops) == 1 and isinstance(e.left, ast.Subscript) and \
+                        isinstance(e.comparators[0], ast.Subscript) and ast.dump(e.left.value) == ast.dump(e.comparators[0].value) and \
+                        v is not None and v.kind in (K_BOOL, K_SCALAR) and vals_.get(id(e.left)) is not None and \
+                        alg_degree(vals_[id(e.left)].a(R)) == Exp(1):
+                    # the direction written as a comparison of the two samples: values[later] > values[earlier]
+                    rgt = e.comparators[0]
+                    li = [x.value for x in ast.walk(e.left.slice) if isinstance(x, ast.Constant) and isinstance(x.value, int)]
+                    ri = [x.value for x in ast.walk(rgt.slice) if isinstance(x, ast.Constant) and isinstance(x.value, int)]
+                    orient = (1 if li[-1] > ri[-1] else -1) if (len(li) == 1 and len(ri) == 1 and li != ri) else 0
+                    if orient == 0:
+                        lt = {t for t in vals_[id(e.left)].tags if t.startswith("at#")}
+                        rt = {t for t in (vals_.get(id(rgt)).tags if vals_.get(id(rgt)) is not None else ()) if t.startswith("at#")}
+                        if len(lt) == 1 and len(rt) == 1 and lt != rt:
+                            orient = 1 if max(lt) > max(rt) else -1
+                    raw = isinstance(e.left.slice, ast.Constant) and isinstance(rgt.slice, ast.Constant)
+                    seen.append((" ".join(ast.unparse(e).split()), orient, raw))
+                    d = sgn * (orient or 1)             # sign of left - right in this scenario
+                    truth = {"Gt": d > 0, "GtE": d >= 0, "Lt": d < 0, "LtE": d <= 0, "Eq": d == 0, "NotEq": d != 0}.get(type(e.ops[0]).__name__)
+                    if truth is None:
+                        return None
+                    return v.replace(const=truth, kind=K_BOOL)
+                if fr.fi is not fi or not isinstance(e, ast.BinOp) or not isinstance(e.op, ast.Sub) or v is None:
+                    return None
+                if not (isinstance(e.left, ast.Subscript) and isinstance(e.right, ast.Subscript)) or v.kind not in (K_SCALAR,):
+                    return None
+                if ast.dump(e.left.value) != ast.dump(e.right.value) or alg_degree(v.a(R)) != Exp(1):
+                    return None
+                li = [x.value for x in ast.walk(e.left.slice) if isinstance(x, ast.Constant) and isinstance(x.value, int)]
+                ri = [x.value for x in ast.walk(e.right.slice) if isinstance(x, ast.Constant) and isinstance(x.value, int)]
+                orient = (1 if li[-1] > ri[-1] else -1) if (len(li) == 1 and len(ri) == 1 and li != ri) else 0
+                if orient == 0:         # positions held in locals: which one is the later element of the index array?
+                    lt = {t for t in (vals_.get(id(e.left)).tags if vals_.get(id(e.left)) is not None else ()) if t.startswith("at#")}
+                    rt = {t for t in (vals_.get(id(e.right)).tags if vals_.get(id(e.right)) is not None else ()) if t.startswith("at#")}
+                    if len(lt) == 1 and len(rt) == 1 and lt != rt:
+                        orient = 1 if max(lt) > max(rt) else -1
+                raw = isinstance(e.left.slice, ast.Constant) and isinstance(e.right.slice, ast.Constant)
+                seen.append((" ".join(ast.unparse(e).split()), orient, raw))
+                eff = sgn * (orient or 1)          # the scenario fixes the sign of `later minus earlier`
+                return v.replace(sign={1: S_POS, -1: S_NEG, 0: S_ZERO}[eff], const=0.0 if eff == 0 else v.const)
+            I.expr_hook = hook
+        r = analyse(chk, GP, lambda I, st, f: dict(values=rec_array("values"), ptype=const_av(ptype)), setup=setup)
+        st = sorted(t for t in r.ret.tags if t.startswith("stride:"))
+        return st, seen
+    bad, orient_ok, exprs, raws = [], None, set(), False
+    for sgn in (1, 0, -1):
+        smax, seen1 = run_("max", sgn)
+        smin, seen2 = run_("min", sgn)
+        for tx, o, raw in seen1 + seen2:
+            exprs.add(tx)
+            raws = raws or raw
+        comp = len(smax) == 1 and len(smin) == 1 and {smax[0], smin[0]} == {"stride:0/2", "stride:1/2"}
+        if not comp:
+            bad.append("later %s earlier: max takes %s, min takes %s" % ({1: ">", 0: "==", -1: "<"}[sgn], smax, smin))
+        if sgn == 1 and comp and all(o != 0 for _, o, _ in seen1):
+            orient_ok = smax == ["stride:1/2"]
+    chk.ob("R-PARTITION", c + "{scenario: strides}", "for every sign of the direction, 'max' and 'min' return the two complementary strides of the "
+           "index array", not bad and bool(exprs), derived="; ".join(bad) or "complementary for >, ==, < (direction: %s)" % sorted(exprs), loc=fi.loc())
+    import re as _re
+    operands = {tuple(sorted(_re.findall(r"[A-Za-z_]\w*\[[^\]]*\]*\]?", tx))) for tx in exprs}
+    chk.ob("R-PARTITION", c + "{scenario: direction}", "both selections are decided by the same two samples of the series", len(operands) == 1,
+           derived="%s" % sorted(exprs), loc=fi.loc())
+    if orient_ok is not None:
+        chk.ob("R-PARTITION", c + "{scenario: orientation}", "when the first segment rises the maxima are the odd entries [1::2]", orient_ok,
+               derived="rising first segment: max takes %s" % ("[1::2]" if orient_ok else "[0::2]"), loc=fi.loc())
+    chk.ob("R-CLEANED", c + "{scenario: direction source}", "the direction is not a difference of two literal positions of the uncleaned input",
+           not raws, derived="direction %s" % sorted(exprs), loc=fi.loc(),
+           detail="a flat start makes values[1] - values[0] zero although the series rises" if raws else None)
 
 
 def _tag(I):
@@ -220,49 +307,16 @@ def ncyc_rules(chk):
                 chk.ob("R-NCYC", cc + "{interp}", "interp(arange(len(values)), peak indices, cycle numbers)", x.length() == LinExpr("n") and x.f0 and
                        "arange0" in x.tags and "where-index" in xp.tags and "arange0" in fp.tags and "where-index" not in fp.tags - xp.tags or
                        (x.length() == LinExpr("n") and "where-index" in xp.tags), derived="x len %r" % (x.length(),), loc=ip[0].loc)
-            aug = [e for e in r.events("mutation", q) if e.how == "augassign-subscript"]
-            okv = len(aug) == 1 and aug[0].value is not None
-            chk.ob("R-NCYC", cc + "{shift}", "cycle numbers after the first are shifted by %s" % shift, okv, derived="%d shift site(s)" % len(aug),
-                   loc=aug[0].loc if aug else fi.loc(), nontrivial=False)
-    # literal tables
-    lits = {}
-    for n in ast.walk(fi.node):
-        if isinstance(n, ast.If) and isinstance(n.test, ast.Compare) and isinstance(n.test.left, ast.Name) and n.test.left.id == "start":
-            node = n
-            while True:
-                lit = node.test.comparators[0].value
-                a = [x for x in node.body if isinstance(x, ast.Assign) and isinstance(x.value, (ast.Constant, ast.UnaryOp))]
-                if a:
-                    lits[lit] = ast.literal_eval(a[0].value)
-                if len(node.orelse) == 1 and isinstance(node.orelse[0], ast.If):
-                    node = node.orelse[0]
-                else:
-                    lits["else-raises"] = any(isinstance(x, ast.Raise) for x in node.orelse)
-                    break
-            break
-    chk.ob("R-NCYC", c + "{start table}", "'origin' -> -0.25, 'peak' -> 0.0, anything else raises", lits == {"origin": -0.25, "peak": 0.0, "else-raises": True},
-           derived="%s" % lits, loc=fi.loc())
-    step = [n for n in ast.walk(fi.node) if isinstance(n, ast.Assign) and isinstance(n.value, ast.BinOp) and "arange" in ast.unparse(n.value)]
-    okstep = False
-    if step:
-        p = Normaliser().poly(step[0].value)
-        okstep = p.is_monomial() and list(p.t.values()) == [Fraction(1, 2)]
-    chk.ob("R-NCYC", c + "{half cycle}", "each reported peak adds 0.5 cycle: 0.5 * arange(number of indices)", okstep,
-           derived=Normaliser().poly(step[0].value).canon() if step else "not found", loc=fi.loc(step[0]) if step else fi.loc())
-    chk.ob("R-NCYC", c + "{monotone}", "shift on [1:] of at least -0.5 keeps 0.5*arange nondecreasing", all(
-        isinstance(v, float) and -0.5 <= v <= 0 for k, v in lits.items() if k != "else-raises"), derived="shifts %s against step 0.5" % {k: v for k, v in lits.items() if k != "else-raises"},
-        loc=fi.loc())
-    opts = {}
-    for n in ast.walk(fi.node):
-        if isinstance(n, ast.If) and isinstance(n.test, ast.Compare) and isinstance(n.test.left, ast.Name) and n.test.left.id == "opt":
-            node = n
-            while True:
-                opts[node.test.comparators[0].value] = True
-                if len(node.orelse) == 1 and isinstance(node.orelse[0], ast.If):
-                    node = node.orelse[0]
-                else:
-                    opts["else-raises"] = any(isinstance(x, ast.Raise) for x in node.orelse)
-                    break
-            break
-    chk.ob("R-NCYC", c + "{opt table}", "'all' / 'switched', anything else raises", opts == {"all": True, "switched": True, "else-raises": True},
-           derived="%s" % opts, loc=fi.loc())
+            fp_parts = ip[0].args[2].parts if len(ip) == 1 else None
+            chk.ob("R-NCYC", cc + "{shift}", "cycle numbers are 0 for the first index and 0.5*k %+g for the k-th (k >= 1)" % shift,
+                   fp_parts == ("ap", 0.5, 0.0, shift) or fp_parts == ("ap", 0.5, 0, shift),
+                   derived="cycle numbers %s" % (fp_parts,), loc=ip[0].loc if ip else fi.loc())
+            chk.ob("R-NCYC", cc + "{monotone}", "the cycle numbers are nondecreasing (0 <= 0.5 + shift)", isinstance(fp_parts, tuple) and fp_parts[0] == "ap"
+                   and fp_parts[2] <= fp_parts[1] + fp_parts[3] and fp_parts[1] >= 0, derived="%s" % (fp_parts,), loc=fi.loc(), nontrivial=False)
+    # option tables, decided on the interpretation (an if/elif chain and a dictionary dispatch are the same thing): anything but the two
+    # documented values of each option raises
+    for opt, start, what in (("bogus", "origin", "opt"), ("all", "bogus", "start")):
+        r = analyse(chk, q, lambda I, st, fi, opt=opt, start=start: dict(values=rec_array("values"), opt=const_av(opt), start=const_av(start)))
+        rs = [e for e in r.I.events if e.kind == "raise" and e.fn == q]
+        chk.ob("R-NCYC", c + "{%s table}" % what, "an undocumented value of `%s` raises" % what, bool(rs) and not r.returns(),
+               derived="%d raise(s), %d normal return(s)" % (len(rs), len(r.returns())), loc=fi.loc())
